@@ -157,25 +157,31 @@ func (o *Node) setNotFound(path Path, n *Node, desc *proto.TypeDescriptor, isPac
 			n.v = rt.GetBytePtr(buf)
 		}
 	case proto.MAP:
-		// pair tag
-		fdNum := desc.BaseId()
-		pairTag := protowire.AppendVarint(nil, uint64(fdNum)<<3|uint64(proto.BytesType))
-		buf := path.ToRaw(desc.Key().Type()) // keytag + key
-		valueWireType := desc.Elem().WireType()
-		valueTag := uint64(2)<<3 | uint64(valueWireType) // the field number of the value in a pair is 2
-		buf = protowire.BinaryEncoder{}.EncodeUint64(buf, valueTag)                  // + value tag
-		src := n.raw()                                                               // + value
-		buf = append(buf, src...)                                                    // key + value
-		pairbuf := protowire.BinaryEncoder{}.EncodeUint64(pairTag, uint64(len(buf))) // + pairlen
-		pairbuf = append(pairbuf, buf...)                                            // pair tag + pairlen + key + value
-		n.l = len(pairbuf)
-		n.v = rt.GetBytePtr(pairbuf)
+		n.toPair(path, desc)
 	default:
 		return wrapError(meta.ErrDismatchType, "simple type node shouldn't have child", nil)
 	}
 	o.t = n.t
 	o.l = 0
 	return nil
+}
+
+// toPair wraps the node, a value of the MAP described by desc, into a whole pair with the given key:
+// [pairTag][pairLen][keyTag][key][valueTag][value]
+func (n *Node) toPair(key Path, desc *proto.TypeDescriptor) {
+	// pair tag
+	fdNum := desc.BaseId()
+	pairTag := protowire.AppendVarint(nil, uint64(fdNum)<<3|uint64(proto.BytesType))
+	buf := key.ToRaw(desc.Key().Type()) // keytag + key
+	valueWireType := desc.Elem().WireType()
+	valueTag := uint64(2)<<3 | uint64(valueWireType) // the field number of the value in a pair is 2
+	buf = protowire.BinaryEncoder{}.EncodeUint64(buf, valueTag)                  // + value tag
+	src := n.raw()                                                               // + value
+	buf = append(buf, src...)                                                    // key + value
+	pairbuf := protowire.BinaryEncoder{}.EncodeUint64(pairTag, uint64(len(buf))) // + pairlen
+	pairbuf = append(pairbuf, buf...)                                            // pair tag + pairlen + key + value
+	n.l = len(pairbuf)
+	n.v = rt.GetBytePtr(pairbuf)
 }
 
 // replaceMany replaces the nodes ps.a, which lie in self's buffer, with the nodes ps.b.
@@ -686,6 +692,12 @@ func (self Node) Indexes(ins []PathNode, opts *Options) error {
 }
 
 func (self Node) Gets(keys []PathNode, opts *Options) error {
+	return self.gets(keys, opts, false)
+}
+
+// gets finds the values of the keys. If wholePair is set the nodes it stores are not only the values
+// but the whole pairs: [pairTag][pairLen][keyTag][key][valueTag][value]
+func (self Node) gets(keys []PathNode, opts *Options, wholePair bool) error {
 	if err := self.should("Gets", proto.MAP); err != "" {
 		return errNode(meta.ErrUnsupportedType, err, nil)
 	}
@@ -717,6 +729,7 @@ func (self Node) Gets(keys []PathNode, opts *Options) error {
 		// read one pair, then look for its key in the pathes: every call of NextStr/NextInt moves to the next pair
 		var keyStr string
 		var keyInt, s, e int
+		pairStart := it.p.Read
 		if strKey {
 			_, keyStr, s, e = it.NextStr(UseNativeSkipForGet)
 		} else {
@@ -724,6 +737,9 @@ func (self Node) Gets(keys []PathNode, opts *Options) error {
 		}
 		if it.Err != nil {
 			return errNode(meta.ErrRead, "", it.Err)
+		}
+		if wholePair {
+			s = pairStart
 		}
 		for j, id := range keys {
 			if strKey {
